@@ -41,7 +41,7 @@ INFO = {
 EXPECTED_PROBES = ("trace_at_normal", "trace_at_verbose", "trace_at_debug", "clamped_low", "clamped_high",
                    "listener_handled", "listener_failed", "keyboard_interrupt", "keyboard_interrupt_debug",
                    "raise_inside_indent", "raise_deep", "origin_simfile", "origin_simfile_fault", "origin_exec",
-                   "library_exception", "quiet_exception", "markup_message")
+                   "library_exception", "quiet_exception", "markup_message", "real_recursion_error")
 
 RETURNS = [None, False, 0, 0.0, "", True, 1, -1, -300, 255, 256, 1000000, "3", "0", "007", 0.5, 3.7, 254.9, 2, 17]
 
@@ -82,6 +82,8 @@ def gen(S, tier):
     if f.chance(0.55):
         if f.chance(0.12):
             outcome = ["raise", "KeyboardInterrupt"]
+        elif f.chance(0.03):
+            outcome = ["raise", "RecursionError-real"]
         else:
             outcome = ["raise", srcgen.gen_exc_spec(f)]
     else:
@@ -239,10 +241,17 @@ def execute(sc):
         inp = SimInputStream(log, [])
         raised = None
         status = None
+        import sys
+        old_limit = sys.getrecursionlimit()
+        if outcome == ["raise", "RecursionError-real"]:
+            sys.setrecursionlimit(350)  # real recursion, but a short way down
+            res.probe("real_recursion_error")
         try:
             status = app.run(ArgvArgs(["prog"] + tokens), inp, out, err)
         except BaseException as e:  # nothing may escape, not even KeyboardInterrupt
             raised = e
+        finally:
+            sys.setrecursionlimit(old_limit)
         log.add("status", repr(status), type(raised).__name__ if raised else None)
     finally:
         if old_open is None:
@@ -342,6 +351,9 @@ def execute(sc):
         else:
             if not (out.data() + err.data()):
                 res.violate("report", "missing", "a failure produced no output at all (status %r)" % status)
+            elif not l_failed and outcome[1] == "RecursionError-real":
+                if "RecursionError" not in text and "maximum recursion depth" not in text:
+                    res.violate("report", "message", "report of a real RecursionError does not name it: %r" % text[:300])
             elif not l_failed:
                 exc = srcgen.make_exception(outcome[1])
                 msg = str(exc)
